@@ -82,6 +82,11 @@ const KINDS: &[&str] = &["m", "nf", "inv", "bad", "unv", "empty", "closed", "dia
 
 fn gen_round(rng: &mut Rng, npool: usize) -> String {
     let n = rng.usize(0, 11);
+    gen_round_n(rng, npool, n)
+}
+
+/// a round with exactly `n` listed answers
+fn gen_round_n(rng: &mut Rng, npool: usize, n: usize) -> String {
     if n == 0 {
         return "e".into();
     }
@@ -114,6 +119,11 @@ impl Prop for C31 {
          while the request is in flight, 1..3 rounds of peer answers (valid single headers from a pool of 4 heights x 3 \
          forks with agreement patterns: unanimous, majority, scattered, nothing valid; multi-header, not-found, invalid, \
          undecodable, failing validation, empty, three kinds of outbound failure), delivered in order or reversed. \
+         Size-threshold ops (S10, tags thr/eligible=E, big/peers=T, big/callers=C): exactly 8..12 connected trusted peers alone \
+         or among 1/7/30 ineligible ones; 16..513 (thorough 15..1025) peers of which all / about a quarter / exactly ten / 0..2 are \
+         eligible; 8..129 (thorough 7..513) concurrent callers with 0, 1, all-but-one, all or a random number of dropped receivers \
+         and up to 33 callers joining in flight; rounds there list 0, 1, 2, one fewer than / exactly / one more than the number of \
+         requests sent, or 11 answers. \
          Non-trivial = at least one request was sent; distinct = distinct (op, result)."
     }
     fn gen_ops(&mut self, rng: &mut Rng, tier: Tier, out: &mut Emitter) {
@@ -149,6 +159,86 @@ impl Prop for C31 {
                 if elig == 0 { "head/no-eligible-peer" } else if elig > 10 { "head/more-than-10-eligible" } else { "head" },
                 elig > 0 && closed < callers + late,
             );
+        }
+        // ---- S10 size-threshold stress (ops are independent lives, so these are simply appended) ----
+        let reps = if tier == Tier::Thorough { 8 } else { 1 };
+        let emit = |rng: &mut Rng, out: &mut Emitter, flags: Vec<&str>, callers: usize, closed: usize, late: usize, tag: &str| {
+            let elig = flags.iter().filter(|p| **p == "ct").count();
+            let sent = elig.min(10);
+            // answers per round: none, fewer than / exactly / more than the requests that will be sent
+            let rounds: Vec<String> = (0..rng.usize(1, 3))
+                .map(|_| {
+                    let n = *rng.pick(&[0, 1, 2, sent.saturating_sub(1), sent, sent, sent + 1, 11]);
+                    gen_round_n(rng, npool, n)
+                })
+                .collect();
+            out.op(
+                format!(
+                    "head peers={} callers={callers} closed={closed} late={late} rounds={} rev={}",
+                    if flags.is_empty() { "-".to_string() } else { flags.join(",") },
+                    rounds.join(";"),
+                    rng.below(2)
+                ),
+                tag,
+                elig > 0 && closed < callers + late,
+            );
+        };
+        for _ in 0..reps {
+            // (a) exactly 8..12 connected trusted peers (MAX_PEERS = 10 +-1, +-2), alone or among ineligible peers
+            for e in 8..=12usize {
+                for &extra in &[0usize, 1, 7, 30] {
+                    for _ in 0..4 {
+                        let mut flags: Vec<&str> = vec!["ct"; e];
+                        for _ in 0..extra {
+                            flags.push(*rng.pick(&["cu", "dt", "du"]));
+                        }
+                        rng.shuffle(&mut flags);
+                        let callers = rng.usize(1, 4);
+                        let late = if rng.chance(1, 3) { rng.usize(1, 2) } else { 0 };
+                        emit(rng, out, flags, callers, 0, late, &format!("thr/eligible={e}"));
+                    }
+                }
+            }
+            // (b) many peers in the tracker: few / about half / all of them eligible
+            let totals: &[usize] =
+                if tier == Tier::Thorough { &[15, 16, 17, 31, 32, 33, 63, 64, 65, 127, 128, 129, 257, 513, 1025] } else { &[16, 17, 32, 33, 64, 65, 129, 513] };
+            for &t in totals {
+                for style in 0..4 {
+                    let mut flags: Vec<&str> = (0..t)
+                        .map(|i| match style {
+                            0 => "ct",
+                            1 => *rng.pick(&["ct", "cu", "dt", "du"]),
+                            2 => if i < 10 { "ct" } else { *rng.pick(&["cu", "dt", "du"]) },
+                            _ => if i < rng.usize(0, 3) { "ct" } else { *rng.pick(&["cu", "dt", "du"]) },
+                        })
+                        .collect();
+                    rng.shuffle(&mut flags);
+                    let callers = rng.usize(1, 4);
+                    let late = rng.usize(0, 2);
+                    emit(rng, out, flags, callers, 0, late, &format!("big/peers={t}"));
+                }
+            }
+            // (c) many concurrent callers of one HEAD request (some with a dropped receiver, some joining in flight)
+            let cs: &[usize] = if tier == Tier::Thorough { &[7, 8, 9, 15, 16, 17, 31, 32, 33, 63, 64, 65, 129, 513] } else { &[8, 9, 16, 17, 32, 33, 64, 65, 129] };
+            for &c in cs {
+                for k in 0..5 {
+                    let np = *rng.pick(&[1usize, 2, 3, 9, 10, 11]);
+                    let mut flags: Vec<&str> = vec!["ct"; np];
+                    if rng.bool() {
+                        flags.push("cu");
+                        flags.push("dt");
+                    }
+                    let closed = match k {
+                        0 => 0,
+                        1 => 1,
+                        2 => c - 1,
+                        3 => c,
+                        _ => rng.usize(0, c),
+                    };
+                    let late = *rng.pick(&[0usize, 0, 1, 2, 9, 17, 33]);
+                    emit(rng, out, flags, c, closed, late, &format!("big/callers={c}"));
+                }
+            }
         }
     }
 
